@@ -352,10 +352,13 @@ func intValue(b []byte) string {
 	return "diff"
 }
 
+// numTerminals: one past the largest type that has a name (robust against holes at the bottom of the numbering)
 func numTerminals() int {
 	n := 0
-	for token.TokMap.Id(token.Type(n)) != "unknown" {
-		n++
+	for i := 0; i < 4096; i++ {
+		if token.TokMap.Id(token.Type(i)) != "unknown" {
+			n = i + 1
+		}
 	}
 	return n
 }
